@@ -357,13 +357,20 @@ class KTr:
             if isinstance(e.op, ast.Div):
                 return FLT
             return FLT if FLT in (a, b) else INT
+        if isinstance(e, ast.IfExp):
+            ks = {self.typeof(e.body), self.typeof(e.orelse)}
+            if ks <= {INT, FLT} and FLT in ks:
+                return FLT
+            if ks == {INT}:
+                return INT
+            raise TranslationError(f"conditional expression {ast.unparse(e)}")
         if isinstance(e, ast.Call):
             f = ast.unparse(e.func)
             if isinstance(e.func, ast.Attribute) and e.func.attr == "conjugate" and not e.args:
                 if self.typeof(e.func.value) != CX:
                     raise TranslationError(f"conjugate of a non-complex: {ast.unparse(e)}")
                 return CX
-            if f in ("np.sqrt", "math.sqrt"):
+            if f in ("np.sqrt", "math.sqrt") or (f == "sqrt" and getattr(self, "bare_sqrt", False)):
                 if self.typeof(e.args[0]) == CX:
                     raise TranslationError("complex square root")
                 return FLT
@@ -541,9 +548,11 @@ class KTr:
             if op is None:
                 raise TranslationError(f"float operator {type(e.op).__name__}")
             return f"({self.fexpr(e.left)} {op} {self.fexpr(e.right)})"
+        if isinstance(e, ast.IfExp):
+            return f"(if {self.bcond(e.test)} then {self.fexpr(e.body)} else {self.fexpr(e.orelse)})"
         if isinstance(e, ast.Call):
             f = ast.unparse(e.func)
-            if f in ("np.sqrt", "math.sqrt") and len(e.args) == 1:
+            if (f in ("np.sqrt", "math.sqrt") or (f == "sqrt" and getattr(self, "bare_sqrt", False))) and len(e.args) == 1:
                 return f"(Scalar.sqrt {self.fexpr(e.args[0])})"
             if f == "abs":
                 return f"(Scalar.abs {self.fexpr(e.args[0])})"
@@ -1736,6 +1745,35 @@ def generate_diffkern(fns, gen_dir, write_if_changed):
         ast.fix_missing_locations(fdk)
         k, txt = KTr(fns, {}, set(), fdk, complex_arrays=set(arrs)).translate(lean_name=f"Modes_{name}_loop")
         out.append(f"/-- the loop of `Modes.{name}`:\n\n" + "\n".join("      " + l for l in nfkc(ast.unparse(loops[0])).splitlines()) + " -/\n" + txt)
+        sig[k.name] = [(p, k.kinds[p]) for p in k.params]
+    # ---- the array-level operators of spherical/utilities/operators.py (numba kernels) ------------------------------------
+    opath = "spherical/utilities/operators.py"
+    osrc = open(os.path.join(REPO, opath), encoding="utf-8").read()
+    otree = ast.parse(osrc)
+    if "from math import sqrt, pi" not in osrc:
+        raise TranslationError("utilities/operators.py: `sqrt` is no longer math.sqrt")
+    out.append("/-! ### spherical/utilities/operators.py: the loops of the array-level ð operators.  `ell_max` is the value of the prelude\n"
+               "    `ell_max = int(sqrt(len(modes) + LM_total_size(0, ell_min - 1))) - 1` (a parameter here; `Model.Ops.inferEllMax`), the\n"
+               "    array is the `np.copy(modes)` the function works on and returns. -/\n")
+    for name in ["eth_GHP", "ethbar_GHP", "eth_NP", "ethbar_NP", "ethbar_inverse_NP"]:
+        fd = find_function(otree, name)
+        if [a.arg for a in fd.args.args] != ["modes", "spin_weight", "ell_min"]:
+            raise TranslationError(f"operators.{name}: signature")
+        stmts = [s for s in fd.body if not (isinstance(s, ast.Expr) and isinstance(s.value, ast.Constant))]
+        if len(stmts) < 4 or ast.unparse(stmts[0]) != "ell_max = int(sqrt(len(modes) + LM_total_size(0, ell_min - 1))) - 1":
+            raise TranslationError(f"operators.{name}: prelude {ast.unparse(stmts[0]) if stmts else ''}")
+        if not (isinstance(stmts[1], ast.Assign) and isinstance(stmts[1].targets[0], ast.Name) and ast.unparse(stmts[1].value) == "np.copy(modes)"):
+            raise TranslationError(f"operators.{name}: {ast.unparse(stmts[1])}")
+        arr = stmts[1].targets[0].id
+        if ast.unparse(stmts[-1]) != f"return {arr}":
+            raise TranslationError(f"operators.{name}: {ast.unparse(stmts[-1])}")
+        fdk = ast.parse(f"def {name}_loop({arr}, spin_weight, ell_min, ell_max):\n    pass\n").body[0]
+        fdk.body = stmts[2:-1]
+        ast.fix_missing_locations(fdk)
+        kt = KTr(fns, {}, set(), fdk, complex_arrays={arr})
+        kt.bare_sqrt = True
+        k, txt = kt.translate(lean_name=f"arr_{name}_loop")
+        out.append(f"/-- `{name}` after its prelude:\n\n" + "\n".join("      " + l for s2 in stmts[2:-1] for l in nfkc(ast.unparse(s2)).splitlines()) + " -/\n" + txt)
         sig[k.name] = [(p, k.kinds[p]) for p in k.params]
     out.append("end\nend Gen\n")
     write_if_changed(os.path.join(gen_dir, "DiffKern.lean"), "\n".join(out))
